@@ -33,7 +33,7 @@ RULE = ('small codes: one case per Pauli operator (all 4^n; in quick a '
         'probe vector; distinct = (class,size,deformation,vector); '
         'non-trivial = vector != 0')
 ASSUMPTIONS = ['supported size family = pv/families.py']
-REQUIRED_COUNTERS = ['vectors_given_as_2d_or_sparse',
+REQUIRED_COUNTERS = ['vectors_given_as_2d_or_sparse', 'batches_classified',
                      'sparse_vectors_with_stored_zeros',
                      'vectors_classified', 'history_steps',
                      'objects_touched_before_judging', 'in_group', 'logical_nontrivial',
@@ -218,6 +218,52 @@ def judge(code, orc, e_int, desc, out, mech_base, dtype='uint8', form='1d'):
     return ref_grp, ref_cs, ref_le
 
 
+def check_batches(code, orc, pool, desc, out, mech, rng, reps):
+    """Stacks of residuals: row i of logical_errors(batch) is the effect of
+    residual i, column j of measure_syndrome(batch) its syndrome -- for every
+    batch size, in particular k and 2k rows (square effect matrices)."""
+    import scipy.sparse as sp
+    n, k = orc.n, orc.k
+    sizes = sorted({1, 2, 3, 5, k, 2 * k, k + 1} - {0})
+    for _ in range(reps):
+        for m in sizes:
+            idx = rng.integers(0, len(pool), size=m)
+            batch = [pool[int(i)] for i in idx]
+            E = np.array([gf2.unpack(e, 2 * n) for e in batch], dtype='uint8')
+            for form in ('dense', 'csr'):
+                X = E if form == 'dense' else sp.csr_matrix(E)
+                out.count('batches_classified')
+                le = np.asarray(code.logical_errors(X))
+                ref = np.array([orc.logical_effect(e) for e in batch])
+                w = dict(desc, batch_rows=m, form=form)
+                if m == 1 and le.ndim == 1:
+                    le = le.reshape(1, -1)
+                if le.shape != ref.shape:
+                    out.violation(f'{mech}/batch/logical_errors-shape',
+                                  f'shape {le.shape} for a batch of {m} '
+                                  f'residuals on k={k}', w)
+                    return
+                if not np.array_equal(le.astype(int), ref):
+                    out.violation(f'{mech}/batch/logical_errors-value',
+                                  f'logical_errors of a batch of {m} '
+                                  'residuals differs from the per-residual '
+                                  'logical effects', w)
+                    return
+                syn = np.asarray(code.measure_syndrome(X))
+                sref = np.array([gf2.syndrome(orc.H, e, n) for e in batch]).T
+                # a single generator or a single residual comes back squeezed
+                if syn.ndim == 1 and syn.size == sref.size and \
+                        1 in sref.shape:
+                    syn = syn.reshape(sref.shape)
+                if syn.shape != sref.shape or \
+                        not np.array_equal(syn.astype(int), sref):
+                    out.violation(f'{mech}/batch/measure_syndrome',
+                                  f'measure_syndrome of a batch of {m} '
+                                  'differs from the per-residual syndromes',
+                                  w)
+                    return
+
+
 def run_small(task, out):
     cls, size = task['cls'], tuple(task['size'])
     # the reference is taken from one object, the verdicts from ANOTHER one
@@ -248,6 +294,11 @@ def run_small(task, out):
                           else '1d')
         cnt += 1
         grp += g
+    if c == 0:
+        brng = np.random.default_rng([task['seed'], 405, n])
+        pool = [int(x) for x in brng.integers(0, total, size=64)] + \
+            list(orc.Lx) + list(orc.Lz) + list(orc.H[:4])
+        check_batches(code, orc, pool, desc, out, mech, brng, 4)
     out.case(dict(desc, chunk=c), nontrivial=True, n=cnt,
              distinct=cnt - (1 if stride == 1 and c == 0 else 0),
              sample=dict(desc, n=n, vectors=cnt, in_group=grp,
@@ -298,6 +349,8 @@ def run_large(task, out):
     for j, e_int in enumerate(probes):
         judge(code, orc, e_int, desc, out, mech, dtype=dts[j % 4],
               form=FORMS[(j // 4) % 5] if j % 3 == 0 else '1d')
+    check_batches(code, orc, probes, desc, out, mech, rng,
+                  2 if task['tier'] == 'quick' else 10)
     out.case(desc, True, n=len(probes),
              distinct=len(set(probes) - {0}),
              sample=dict(desc, n=n, k=k, probes=len(probes)))
